@@ -820,7 +820,7 @@ def run_conc(prop, tier, seed, t0):
     nontriv = len({seg_hash(ops) for sid, ops in segs if sum(1 for o in ops if o.startswith('thr 0')) >= 2 and sum(1 for o in ops if o.startswith('thr 1')) >= 2})
     cov = dict(states=mc.get('distinct', 0), transitions=mc.get('generated', 0), traces_validated_against_impl=len(segs), events=events,
                evaluations=len(segs), distinct_nontrivial=nontriv,
-               rule='seeded concurrent programs: 2-3 threads x 3-14 ops over {create (with/without IN_SEQUENCE, TIMES), call, release, query, is_completed, watch / destroy watched object / release monitor, destroy own mock} '
+               rule='seeded concurrent programs: 2-8 threads (up to 3 owners x 3-14 ops, callers x 2-8 ops) over {create (with/without IN_SEQUENCE, TIMES), call, release, query, is_completed, watch / destroy watched object / release monitor, destroy own mock} '
                     'on shared mock + shared sequences; schedule perturbed by random yields in the instrumented lock; one schedule per program per run (sampled, not exhaustive); '
                     'non-trivial = distinct program with >= 2 ops in at least two threads',
                samples=[dict(segment=s, ops=o[:30]) for s, o in segs[:2]], model_checking=mc.get('summary', {}), exhaustive=False,
